@@ -255,6 +255,16 @@ pub fn run(ctx: &Ctx) -> i32 {
             }
         }
     }
+    // arguments documented as optional (`COUNT?`, `LOCATION?` in help.txt): the bare command means the documented default
+    for (bare, explicit) in [("step into", "step into 1"), ("si", "si 1"), ("print", "print ^"), ("p", "p ^"), ("assembly", "assembly ^"), ("a", "a ^"), ("PRINT", "print ^0")] {
+        acc.eval("c/documented-defaults");
+        let a = guard(|| verif_parse_command(bare));
+        let b = guard(|| verif_parse_command(explicit));
+        match (&a, &b) {
+            (Ok(Ok(x)), Ok(Ok(y))) if x == y => acc.nontrivial(),
+            _ => acc.violation(format!("C14/name/documented-default-not-applied/{}", explicit.split(' ').next().unwrap_or("?").to_lowercase()), format!("help.txt documents the argument of `{bare}` as optional with a default, so it should mean `{explicit}` ({b:?}); got {a:?}"), json!({"line": bare})),
+        }
+    }
     let letters: Vec<char> = ('a'..='z').collect();
     let parts = pooled(None, 26 + 26 * 26 + 26 * 26 * 26, 64, Acc::new, |acc, i| {
         let word: String = if i < 26 { util::seq(i, 26, 1) } else if i < 26 + 676 { util::seq(i - 26, 26, 2) } else { util::seq(i - 26 - 676, 26, 3) }.iter().map(|c| letters[*c]).collect();
@@ -447,7 +457,7 @@ pub fn run(ctx: &Ctx) -> i32 {
         "bounded-exhaustive enumeration: (a) every string of length 1..=5 (quick) / 6 (thorough) over the 17-character alphabet {+ - # x o b 0 1 7 9 a f g ^ r _ é} in each of six argument positions (integer value, step count, location of print / move, address of goto / break add), parsed by the real command parser and by the reference recogniser of the documented grammar: same acceptance and, when accepted, the same command with the same values (Debug rendering); (b) every value 0..65535 and -1..-32768 in every documented spelling (sign before or after the prefix, optional leading zero, 4 radices, letter case, leading zeros) as integer, as address and as PC offset, plus the i32 boundary in each radix; (c) every name documented in help.txt in three letter cases and every word of <= 3 letters with four argument shapes (totality, case-insensitivity); (d) every token of length <= 3 (thorough 4, stride 5) through the real debugger (`move r1 T`, `goto T`, `break add T`) against the reference debugger: accepted tokens have exactly the documented effect, rejected ones none; (e) 18 scripts (incl. 2-, 3- and 4-byte characters) x every split point between --command and stdin x ';'/newline per gap x trailing separator through the real binary: identical exit status, stdout and stderr. A seeded random supplement of longer strings with multi-byte characters is run and reported separately (sampling, not part of the exhaustive claim). non-trivial = accepted-and-equal parses + agreeing sessions / variants",
         true,
         &["strings-enumerated", "transport-variants-agree"],
-        &["reference grammar = refmodel::cmdlang, validated against the repository's own parser tests by `lacemc selftest`", "negative step counts and `print` without argument are not judged (documentation and code comments disagree)"],
+        &["reference grammar = refmodel::cmdlang, validated against the repository's own parser tests by `lacemc selftest`", "negative step counts are not judged (help.txt says Integer, a code comment says non-positive means 1, the code casts to u16)"],
         json!({"max_len": max_len, "random_supplement_tokens": sampled, "transport_variants": variants.len()}),
     )
 }
